@@ -30,6 +30,7 @@ RULE = ('random pin-bundle problems (2-8 rings, 1-3 ducts, flowing/stagnant '
         'a case is non-trivial when >= 10 steps were checked and the coolant '
         'temperature rose by > 1 K; distinct by (rings, ducts, bypass, corr, '
         'gap, options)')
+RULE += (' Later rounds added: pins unpowered over a stretch with coolant/duct heating continuing, inputs in inches with half-inch bounds, top regions one step thick, two boundaries inside one step, low-fidelity assemblies with further axial regions, cores with the low-flow approximation.')
 DECIDING = ['I1_interior_balance', 'I0_probe_exchange_sums_to_zero']
 CASE_TIMEOUT = {'quick': 150, 'thorough': 900}
 BUDGET = {'quick': 600, 'thorough': 3000}
